@@ -1,7 +1,8 @@
 (* C02 property theorems: correlation links are mutual, opposite-side, same-id, or a sentinel. *)
 From HTA.lib Require Import Base.
 From HTA.model Require Import Loader_Model.
-From HTA.proof Require Import C02_Proofs.
+From HTA.gen Require Import LinkRules_gen.
+From HTA.proof Require Import C02_Proofs C02_RulesTie.
 Open Scope Z_scope.
 
 Theorem C02_link_mutual : forall l e p,
@@ -59,3 +60,15 @@ Proof.
   repeat (destruct Hp as [Hp|Hp]; [subst p|]); try contradiction;
   repeat (destruct Hq as [Hq|Hq]; [subst q|]); try contradiction; vm_compute; congruence.
 Qed.
+
+(* the fallback value, the "has an id" test of the pairing and the alignment shift are regenerated from transform_correlation_to_index
+   and Trace._align_all_ranks on every run (strict statement-by-statement reading) and are the model's *)
+Theorem C02_rules_follow_source : forall l e,
+  (find (partner_b e) l = None -> link_of l e = link_fallback_gen (corr e)) /\
+  (forall p, partner_b e p = (corr p =? corr e) && has_id_gen (corr e) && xorb (is_dev p) (is_dev e)).
+Proof. exact link_rules_are_generated. Qed.
+Print Assumptions C02_rules_follow_source.
+
+Theorem C02_alignment_follows_source : forall c e, ts (shift c e) = aligned_gen c (ts e).
+Proof. exact align_rule_is_generated. Qed.
+Print Assumptions C02_alignment_follows_source.
